@@ -144,7 +144,7 @@ PLANS["C14"] = {
     "rule": ("family 'basis' with files=1: for every LP and every valid basis, mpq_QSwrite_basis(p,B,f) then mpq_QSread_basis / mpq_QSread_and_load_basis must give the same basic set "
              "and at-upper set (non-basic free <-> at-lower tolerated) and the same exact basic solution; family 'hist': mpq_QSwrite_basis(p,NULL,f) appears as an operation inside "
              "every history, followed by every other operation, and the basis must still be there"),
-    "quick": [hist("hist-sb3", "prod", 3, weight=1, crash_props=["C17", "C14"], opts={"depth": 3, "reduced": 0, "sandwich": 2}), hist("hist-d2-prod", "prod", 2, weight=1, crash_props=["C17", "C14"]), fam("basisfile-S1q", "prod", "basis", {"fam": "S1q", "files": 1, "verify": 0}, weight=2, crash_props=["C17", "C14"]),
+    "quick": [hist("hist-sb3", "prod", 3, weight=1, crash_props=["C17", "C14"], opts={"depth": 3, "reduced": 0, "sandwich": 2}), fam("basisfile-S1q", "prod", "basis", {"fam": "S1q", "files": 1, "verify": 0}, weight=2, crash_props=["C17", "C14"]),
               fam("basisfile-S0q1", "prod", "basis", {"fam": "S0q1", "files": 1, "verify": 0}, weight=2, crash_props=["C17", "C14"]),
               fam("basisfile-Sbq", "prod", "basis", {"fam": "Sbq", "files": 1, "verify": 0}, weight=2, crash_props=["C17", "C14"]),
               hist("hist-d2-san", "san", 2, weight=3), hist("hist-d3r-prod", "prod", 3, reduced=1, weight=3)],
@@ -554,4 +554,3 @@ for _pid in ("C01", "C02"):
     PLANS[_pid]["evidence"] = {"states": ["instances", "histories"], "transitions": ["executions", "api_transitions"], "nontrivial": ["instances_nontrivial", "histories"]}
 
 PLANS["C14"]["rule"] += ("; family hist: every write_basis step inside a history reads the file back and compares it with the basis mpq_QSget_basis reports (histories of depth 2, and solve ; any operation ; write_basis)")
-PLANS["C14"]["evidence"] = {"states": PLANS["C14"]["evidence"]["states"] + ["histories"], "transitions": PLANS["C14"]["evidence"]["transitions"] + ["api_transitions"], "nontrivial": PLANS["C14"]["evidence"]["nontrivial"]}
